@@ -120,12 +120,49 @@ func loadCorpus() {
 
 // ---- the simulated disk's damage ---------------------------------------------
 
-var dict = []string{"{", "}", "%", "#", "{{", "}}", "{%", "%}", "{#", "#}", "{%%", "%%}", "\"", "'", "`", "<", ">", "\\", "/", "-", "\r", "\n", "\x00", "\xff", "\xef\xbb\xbf", "(", ")", "[", "]", ";", ":", "=", "<!--", "-->", "<script>", "</script>", "<style>", "\xe2\x80\xa8", "0x", "1e", ".", "..", "...", "'\\", "/*", "*/", "//", "raw", "end", "macro", "extends", "import", "render", "func", "go", "select", "case", "defer", "var", "type", "struct", "interface", "chan", "<-", "\t", " ", "é", "\xf0\x9f\x98\x80"}
+var dict = []string{"{", "}", "%", "#", "{{", "}}", "{%", "%}", "{#", "#}", "{%%", "%%}", "\"", "'", "`", "<", ">", "\\", "/", "-", "\r", "\n", "\x00", "\xff", "\xef\xbb\xbf", "(", ")", "[", "]", ";", ":", "=", "<!--", "-->", "<script>", "</script>", "<style>", "\xe2\x80\xa8", "0x", "1e", ".", "..", "...", "'\\", "/*", "*/", "//", "raw", "end", "macro", "extends", "import", "render", "func", "go", "select", "case", "defer", "var", "type", "struct", "interface", "chan", "<-", "\t", " ", "é", "\xf0\x9f\x98\x80", "\f", "\v", "\u0085", "\u00a0", "\u2003", "\f\n", " \f ", "\r\n", "\ufeff", "{{-", "-}}", "{%-", "-%}"}
+
+var spaces = []string{"\f", "\v", "\u0085", "\u00a0", " \f", "\f\n", "\t\f\t", "\r", "\u2028", "\u3000", "\f\f", "\n\v\n"}
 
 // damage applies one stored-bytes fault to data and names it.
 func damage(s *choice.Stream, data []byte, other []byte) ([]byte, string) {
 	n := len(data)
-	switch s.Pick(5, 4, 3, 2, 2, 1, 1) {
+	switch s.Pick(5, 4, 3, 2, 2, 1, 1, 3, 2) {
+	case 8: // unusual white space (form feed, vertical tab, NEL, NBSP...) at a statement boundary
+		var bounds []int
+		for i := 0; i+1 < n; i++ {
+			if (data[i] == '%' || data[i] == '}' || data[i] == '#') && data[i+1] == '}' {
+				bounds = append(bounds, i+2)
+			}
+			if data[i] == '{' && (data[i+1] == '%' || data[i+1] == '{' || data[i+1] == '#') {
+				bounds = append(bounds, i)
+			}
+		}
+		bounds = append(bounds, 0, n)
+		pos := bounds[s.N(len(bounds))]
+		d := spaces[s.N(len(spaces))]
+		out := append(append(append([]byte(nil), data[:pos]...), d...), data[pos:]...)
+		return out, fmt.Sprintf("space-at-boundary@%d=%q", pos, d)
+	case 7: // garbage inserted exactly at a statement / show boundary
+		var bounds []int
+		for i := 0; i+1 < n; i++ {
+			if (data[i] == '%' || data[i] == '}' || data[i] == '#') && data[i+1] == '}' {
+				bounds = append(bounds, i+2)
+			}
+			if data[i] == '{' && (data[i+1] == '%' || data[i+1] == '{' || data[i+1] == '#') {
+				bounds = append(bounds, i)
+			}
+		}
+		if len(bounds) == 0 {
+			return data, "none"
+		}
+		pos := bounds[s.N(len(bounds))]
+		d := dict[s.N(len(dict))]
+		if s.Bool() {
+			d += dict[s.N(len(dict))]
+		}
+		out := append(append(append([]byte(nil), data[:pos]...), d...), data[pos:]...)
+		return out, fmt.Sprintf("insert-at-boundary@%d=%q", pos, d)
 	case 0: // torn / truncated write
 		if n == 0 {
 			return data, "none"
@@ -268,7 +305,7 @@ func exec(r *harness.Run) *harness.Violation {
 	// Source.
 	var src source
 	opts := &scriggo.BuildOptions{AllowGoStmt: true}
-	switch s.Pick(6, 2, 1, 1, 1, 2) {
+	switch s.Pick(6, 4, 1, 1, 1, 2) {
 	case 5:
 		// A very short stored file: 1-6 delimiters/keywords (what is left of
 		// a file after a torn write near its beginning).
